@@ -37,6 +37,9 @@ def dispatch(prop, tier):
     if prop == "C17":
         from . import ir_check
         return ir_check.check(prop, tier)
+    if prop == "C09":
+        from . import tun_check
+        return tun_check.check(prop, tier)
     raise MachineryError("no check for %s" % prop)
 
 
@@ -69,6 +72,9 @@ def main(argv):
             if mod == "SharpIR":
                 from . import ir_check
                 return ir_check.replay(argv[1])
+            if mod == "Tunable":
+                from . import tun_check
+                return tun_check.replay(argv[1])
             raise MachineryError("cannot replay module %s" % mod)
         prop = argv[0]
         tier = argv[1] if len(argv) > 1 else os.environ.get("VERIF_TIER", "quick")
